@@ -7,6 +7,7 @@ import (
 	"math/big"
 	"strings"
 	"sync"
+	"sync/atomic"
 	"unicode"
 
 	"github.com/SAP/go-dblib/asetypes"
@@ -958,12 +959,20 @@ func runC16(c *Ctx) {
 			r.Inconclusive("bad replay: %v", err)
 			return
 		}
+		if cs.Kind == "" { // a race report of the parse-race leg: run that leg again
+			runC16ParseRace(c)
+			return
+		}
 		l := newC16Local()
 		c16Exec(r, l, cs)
 		l.flush(r)
 		return
 	}
 	r.Exhaustive = false
+	if c.Leg == "parse-race" {
+		runC16ParseRace(c)
+		return
+	}
 
 	type pair struct{ p, s int }
 	var pairs []pair
@@ -1121,4 +1130,54 @@ func runC16(c *Ctx) {
 		}
 	}
 	l.flush(r)
+}
+
+// runC16ParseRace (leg "parse-race", race build): the FIRST conversions of a
+// process are made by 8 goroutines at once, each on decimals of its own -
+// parsing and formatting share nothing a caller can see, so the race
+// detector must stay silent (any report with a go-dblib frame is a
+// violation) and every conversion is judged like in the main leg.
+func runC16ParseRace(c *Ctx) {
+	r := c.R
+	type pair struct{ p, s int }
+	const workers = 8
+	lists := make([][]pair, workers)
+	n := 0
+	for _, p := range []int{38, 1, 19, 9, 20, 37, 18, 2, 10, 28} {
+		for _, s := range []int{0, p / 2, p} {
+			lists[n%workers] = append(lists[n%workers], pair{p, s})
+			n++
+		}
+	}
+	var ready, done sync.WaitGroup
+	var start int32
+	ready.Add(workers)
+	done.Add(workers)
+	for w := 0; w < workers; w++ {
+		go func(w int) {
+			defer done.Done()
+			l := newC16Local()
+			defer l.flush(r)
+			ready.Done()
+			for atomic.LoadInt32(&start) == 0 {
+			}
+			for _, pr := range lists[w] {
+				for _, u := range c16Boundary(pr.p) {
+					c16Exec(r, l, c16Case{Kind: "string", P: pr.p, S: pr.s, U: u.String(), Why: "boundary"})
+					for i, g := range c16Spellings(pr.p, pr.s, u) {
+						via := "SetString"
+						if i%4 == 0 {
+							via = "NewDecimalString"
+						}
+						c16Exec(r, l, c16Case{Kind: "setstring", P: pr.p, S: pr.s, Text: g.text, Via: via, Why: g.why})
+					}
+				}
+			}
+		}(w)
+	}
+	ready.Wait()
+	atomic.StoreInt32(&start, 1)
+	done.Wait()
+	r.Count("parse_race_goroutines", workers)
+	r.Count("parse_race_precision_scale_pairs", int64(n))
 }
